@@ -319,7 +319,7 @@ def profiles(tier, light=False):
             dict(univ="A", q0s=[3], autos=[False, True], maxq=4, maxel=2, rsz=[0, 3, 4], merges=mA[:1], nparts=1),
             dict(univ="B", q0s=[3], autos=[False], maxq=3, maxel=6, rsz=[0, 3], merges=mB[:1], nparts=1),
         ]
-    if tier == "quick":
+    if tier == "quick" or light:      # thorough tier of the cross-cutting properties: the full quick set
         return [
             dict(univ="A", q0s=[3], autos=[False, True], maxq=4, maxel=3, rsz=[0, 2, 3, 4], merges=mA, nparts=1),
             dict(univ="B", q0s=[3], autos=[False], maxq=3, maxel=8, rsz=[0, 3], merges=mB, nparts=1),
